@@ -47,6 +47,8 @@ func init() {
 	verifKinds["c14.props"] = verifC14Props
 	verifKinds["c14.rt"] = verifC14RoundTrip
 	verifKinds["c14.handler"] = verifC14Handler
+	verifKinds["c14.long"] = verifC14Long
+	verifKinds["c14.observed"] = verifC14Observed
 }
 
 var errVerifC14 = errors.New("verif: scripted error of the inner reader/writer")
@@ -655,6 +657,12 @@ func verifC14RoundTrip(args []vsx) vsx {
 		rs, ok2 := verifC14ParseResp(args[5])
 		if !ok1 || !ok2 {
 			return vL(vS("bad-case"))
+		}
+		if rs.bodyKind == 2 {
+			if verifC14Tripped {
+				return vErr(verifC14AllocErr)
+			}
+			return verifC14RoundTripLiveRun(args, spec, rs)
 		}
 		return verifC14Both(func(accumulate bool) vsx { return verifC14RoundTripSpecRun(args, spec, rs, accumulate) })
 	}
